@@ -191,6 +191,22 @@ func boundedByInput(t *Taint, at ssa.Instruction, size ssa.Value, src ssa.Value)
 		if !carries {
 			continue
 		}
+		// a product/sum/shift of a 64-bit input value can wrap around and slip
+		// under the bound: such a comparison bounds nothing
+		if operandTreeAny(small, func(v ssa.Value) bool {
+			bo2, ok := v.(*ssa.BinOp)
+			if !ok || (bo2.Op != token.MUL && bo2.Op != token.SHL && bo2.Op != token.ADD) {
+				return false
+			}
+			for _, op := range []ssa.Value{bo2.X, bo2.Y} {
+				if _, tainted := t.Of(op); tainted && wide64(op) {
+					return true
+				}
+			}
+			return false
+		}) {
+			continue
+		}
 		hasLen := operandTreeAny(big, isInputLen)
 		bigTainted := operandTreeAny(big, func(v ssa.Value) bool { _, ok := t.Of(v); return ok && !isInputLen(v) })
 		if hasLen && !bigTainted {
@@ -428,4 +444,25 @@ func nilReturnGuards(f *ssa.Function) []Guard {
 		common = keep
 	}
 	return common
+}
+
+// wide64: v is a 64-bit integer (int, uint, int64, uint64, uintptr) that was not
+// widened from a type of at most 32 bits.
+func wide64(v ssa.Value) bool {
+	for i := 0; i < 6; i++ {
+		b, ok := v.Type().Underlying().(*types.Basic)
+		if !ok || b.Info()&types.IsInteger == 0 {
+			return false
+		}
+		switch b.Kind() {
+		case types.Int8, types.Uint8, types.Int16, types.Uint16, types.Int32, types.Uint32:
+			return false
+		}
+		cv, ok := v.(*ssa.Convert)
+		if !ok {
+			return true
+		}
+		v = cv.X
+	}
+	return true
 }
